@@ -288,7 +288,8 @@ def respell_rho(text, rng):
 
 
 COMMENTS = ['c', 'c comment', 'C  A COMMENT with 1 2 3', 'c  imp:n=0 fill=3',
-            '  c indented comment', 'c $ & ( ) : #', 'c ---------']
+            '  c indented comment', 'c $ & ( ) : #', 'c ---------',
+            'c\ttab after the c', 'C\t', '    c\t1 2 3', 'c \t mixed']
 
 
 def render_card(card, recipe, block):
